@@ -465,6 +465,10 @@ class Ctx:
             if key not in [x[0] for x in self.known]:
                 self.known.append((key, k.get("what", what)))
             return
+        for v in self.violations:
+            if v[0] == key:
+                self.dup_counts[key] = self.dup_counts.get(key, 1) + 1
+                return
         d = os.path.join(VERIF, "replays", "%s-%s" % (self.prop, hashlib.sha1(key.encode()).hexdigest()[:10]))
         os.makedirs(d, exist_ok=True)
         json.dump({"property": self.prop, "key": key, "what": what, "seed": self.seed, "tier": self.tier,
